@@ -132,3 +132,158 @@ pub open spec fn failed(c: GlobalDataLock, r: ExpressionResult) -> bool {
         Ok(v) => c.cells().contains_key(v.cell()) && c.cells()[v.cell()] is Error,
     }
 }
+
+// TRUSTED stand-ins: the operator functions of src/datamodel/mod.rs (their values are the subject of the Kani harnesses)
+pub uninterp spec fn sp_multiply(l: Data, r: Data) -> Data;
+
+#[verifier::external_body]
+pub fn operation_multiply(left: &Data, right: &Data) -> (r: Data)
+    ensures
+        r == sp_multiply(*left, *right),
+{
+    unimplemented!()
+}
+
+pub uninterp spec fn sp_divide(l: Data, r: Data) -> Data;
+
+#[verifier::external_body]
+pub fn operation_divide(left: &Data, right: &Data) -> (r: Data)
+    ensures
+        r == sp_divide(*left, *right),
+{
+    unimplemented!()
+}
+
+pub uninterp spec fn sp_plus(l: Data, r: Data) -> Data;
+
+#[verifier::external_body]
+pub fn operation_plus(left: &Data, right: &Data) -> (r: Data)
+    ensures
+        r == sp_plus(*left, *right),
+{
+    unimplemented!()
+}
+
+pub uninterp spec fn sp_minus(l: Data, r: Data) -> Data;
+
+#[verifier::external_body]
+pub fn operation_minus(left: &Data, right: &Data) -> (r: Data)
+    ensures
+        r == sp_minus(*left, *right),
+{
+    unimplemented!()
+}
+
+pub uninterp spec fn sp_less(l: Data, r: Data) -> Data;
+
+#[verifier::external_body]
+pub fn operation_less(left: &Data, right: &Data) -> (r: Data)
+    ensures
+        r == sp_less(*left, *right),
+{
+    unimplemented!()
+}
+
+pub uninterp spec fn sp_less_equal(l: Data, r: Data) -> Data;
+
+#[verifier::external_body]
+pub fn operation_less_equal(left: &Data, right: &Data) -> (r: Data)
+    ensures
+        r == sp_less_equal(*left, *right),
+{
+    unimplemented!()
+}
+
+pub uninterp spec fn sp_greater(l: Data, r: Data) -> Data;
+
+#[verifier::external_body]
+pub fn operation_greater(left: &Data, right: &Data) -> (r: Data)
+    ensures
+        r == sp_greater(*left, *right),
+{
+    unimplemented!()
+}
+
+pub uninterp spec fn sp_greater_equal(l: Data, r: Data) -> Data;
+
+#[verifier::external_body]
+pub fn operation_greater_equal(left: &Data, right: &Data) -> (r: Data)
+    ensures
+        r == sp_greater_equal(*left, *right),
+{
+    unimplemented!()
+}
+
+pub uninterp spec fn sp_and(l: Data, r: Data) -> Data;
+
+#[verifier::external_body]
+pub fn operation_and(left: &Data, right: &Data) -> (r: Data)
+    ensures
+        r == sp_and(*left, *right),
+{
+    unimplemented!()
+}
+
+pub uninterp spec fn sp_or(l: Data, r: Data) -> Data;
+
+#[verifier::external_body]
+pub fn operation_or(left: &Data, right: &Data) -> (r: Data)
+    ensures
+        r == sp_or(*left, *right),
+{
+    unimplemented!()
+}
+
+pub uninterp spec fn sp_equal(l: Data, r: Data) -> Data;
+
+#[verifier::external_body]
+pub fn operation_equal(left: &Data, right: &Data) -> (r: Data)
+    ensures
+        r == sp_equal(*left, *right),
+{
+    unimplemented!()
+}
+
+pub uninterp spec fn sp_not_equal(l: Data, r: Data) -> Data;
+
+#[verifier::external_body]
+pub fn operation_not_equal(left: &Data, right: &Data) -> (r: Data)
+    ensures
+        r == sp_not_equal(*left, *right),
+{
+    unimplemented!()
+}
+
+pub uninterp spec fn sp_modulus(l: Data, r: Data) -> Data;
+
+#[verifier::external_body]
+pub fn operation_modulus(left: &Data, right: &Data) -> (r: Data)
+    ensures
+        r == sp_modulus(*left, *right),
+{
+    unimplemented!()
+}
+
+/// the README's operator table: which operation an operator token denotes
+pub open spec fn apply_op(op: Operator, l: Data, r: Data) -> Data {
+    match op {
+        Operator::Multiply => sp_multiply(l, r),
+        Operator::Divide => sp_divide(l, r),
+        Operator::Plus => sp_plus(l, r),
+        Operator::Minus => sp_minus(l, r),
+        Operator::Less => sp_less(l, r),
+        Operator::LessEqual => sp_less_equal(l, r),
+        Operator::Greater => sp_greater(l, r),
+        Operator::GreaterEqual => sp_greater_equal(l, r),
+        Operator::And => sp_and(l, r),
+        Operator::Or => sp_or(l, r),
+        Operator::Equal => sp_equal(l, r),
+        Operator::NotEqual => sp_not_equal(l, r),
+        Operator::Modulus => sp_modulus(l, r),
+        _ => l,
+    }
+}
+
+pub open spec fn op_binary(op: Operator) -> bool {
+    !(op is Assign) && !(op is AssignUndefined) && !(op is Not)
+}
